@@ -443,6 +443,11 @@ class Walk:
                 return st._replace(acct=tuple(sorted(st.acct + (s.target.id,))))
             if _only_len_uses(s.value, tracked) and not (set(_store_names(s.target)) & tracked):
                 return st
+        # `left = left - len(data)` is the spelled-out form of the accounting decrement
+        if n.kind == 'stmt' and isinstance(s, ast.Assign) and len(s.targets) == 1 and isinstance(s.targets[0], ast.Name) \
+                and isinstance(s.value, ast.BinOp) and isinstance(s.value.op, ast.Sub) and isinstance(s.value.left, ast.Name) \
+                and s.value.left.id == s.targets[0].id and _is_len_of(s.value.right, st.al):
+            return st._replace(acct=tuple(sorted(st.acct + (s.targets[0].id,))))
         if n.kind == 'stmt' and isinstance(s, ast.Assign):
             up = self._prefix_slice(s, st.al)
             if up is not None:
@@ -455,11 +460,6 @@ class Walk:
                     and self._parse_or_raise(n):
                 self.events.add('parse-or-raise@%s' % n.lineno)
                 return st
-        # `left = left - len(data)` is the spelled-out form of the accounting decrement
-        if n.kind == 'stmt' and isinstance(s, ast.Assign) and len(s.targets) == 1 and isinstance(s.targets[0], ast.Name) \
-                and isinstance(s.value, ast.BinOp) and isinstance(s.value.op, ast.Sub) and isinstance(s.value.left, ast.Name) \
-                and s.value.left.id == s.targets[0].id and _is_len_of(s.value.right, st.al):
-            return st._replace(acct=tuple(sorted(st.acct + (s.targets[0].id,))))
         # A use that does not rebind the bytes (decoding them, writing the decoded form) may come before the report as long
         # as the report still happens on every normal path - which the rest of this walk decides.  bytes are immutable, so
         # only a re-binding of the tracked name can change what is reported.
@@ -938,14 +938,17 @@ def _d2_remainder(ctx, fi, B, wire_names):
     fn = fi.node
     defs = U.local_defs(fn)
     ds = defs.get(B, [])
-    inits = [(v, st) for v, kind, st in ds if kind == 'assign']
-    augs = [(v, st) for v, kind, st in ds if kind == 'aug']
+    def spelled(v):
+        # B = B - len(data): the spelled-out decrement
+        return isinstance(v, ast.BinOp) and isinstance(v.op, ast.Sub) and isinstance(v.left, ast.Name) and v.left.id == B
+    inits = [(v, st) for v, kind, st in ds if kind == 'assign' and not spelled(v)]
+    augs = [(v, st) for v, kind, st in ds if kind == 'aug'] + [(v.right, st) for v, kind, st in ds if kind == 'assign' and spelled(v)]
     others = [st for v, kind, st in ds if kind not in ('assign', 'aug')]
     good = len(inits) == 1 and len(augs) == 1 and not others
     why = 'definitions of %s: %s' % (B, [norm_text(st) for _, _, st in ds])
     if good:
         v, st = augs[0]
-        good = isinstance(st.op, ast.Sub) and _is_len_of(v, set(wire_names))
+        good = (isinstance(st, ast.Assign) or isinstance(st.op, ast.Sub)) and _is_len_of(v, set(wire_names))
         if not good:
             why = '`%s` is not `%s -= len(%s)`' % (norm_text(st), B, wire_names[0])
     if good:
@@ -1766,9 +1769,19 @@ def _d6(ctx):
             # the block file may be addressed through the record or through the session field it was bound from
             aliases = {'self.%s.block_file' % rs.field}
             for m_ in hci.methods.values():
+                # locals that name the record of this exchange (`self._response_record = record = WARCRecord()`)
+                rec_locals = set()
+                for st_ in walk_no_nested(m_.node):
+                    if isinstance(st_, ast.Assign):
+                        tg0 = [norm_text(t) for t in st_.targets]
+                        if 'self.%s' % rs.field in tg0:
+                            rec_locals |= {t for t in tg0 if t.isidentifier()}
+                        if norm_text(st_.value) == 'self.%s' % rs.field:
+                            rec_locals |= {t for t in tg0 if t.isidentifier()}
                 for st_ in walk_no_nested(m_.node):
                     if isinstance(st_, ast.Assign):
                         tg = [norm_text(t) for t in st_.targets]
+                        tg = ['self.%s.block_file' % rs.field if any(t == '%s.block_file' % l_ for l_ in rec_locals) else t for t in tg]
                         if 'self.%s.block_file' % rs.field in tg:
                             aliases |= {t for t in tg if t.startswith('self.')}
                             if isinstance(st_.value, ast.Attribute) and U.is_self_attr(st_.value):
